@@ -16,11 +16,11 @@ import (
 // badRootExec: builds a good persisted version, then loads perturbed roots / stores /
 // configurations and records the outcome enum ok | err | panic | hang.
 type badRootExec struct {
-	cfg    Cfg
-	store  *RecStore
-	root   *mast.Root
-	keys   []uint64
-	last   string // last observation, echoed to the model for cases the model does not cover
+	cfg   Cfg
+	store *RecStore
+	root  *mast.Root
+	keys  []uint64
+	last  string // last observation, echoed to the model for cases the model does not cover
 }
 
 func encBinNode(keys, vals [][]byte, links []string, nlinks int) []byte {
